@@ -112,7 +112,7 @@ def make_path(steps, spelling):
 
 def gen_value(rng):
     k = rng.choice(['scalar', 'scalar', 'opaque', 'list', 'dict', 'spec', 'texpr', 'selfref', 'tleaves', 'subclass-dict', 'subclass-list',
-                    'tuple-tleaves', 'frozenset-tleaves', 'plain-tuple', 'selfref-tleaves', 'shared-sub-tleaves'])
+                    'tuple-tleaves', 'frozenset-tleaves', 'plain-tuple', 'selfref-tleaves', 'shared-sub-tleaves', 'whole-target', 'whole-target-in-list', 'val-holding-a-T'])
     return k
 
 
@@ -121,6 +121,9 @@ class StatefulList(list):
     def __init__(self, items, label):
         list.__init__(self, items)
         self.label = label
+
+
+_STORED_T = T['zz_not_a_key_of_anything']['deeper']
 
 
 def make_value(kind, rng_state_val, target):
@@ -149,6 +152,14 @@ def make_value(kind, rng_state_val, target):
         a = [1]; a.append(a)
         b = [1]; b.append(b)
         return a, b
+    if kind == 'whole-target':
+        # the value T is the target itself: what is stored is THAT object (a cycle), however many levels had to be created on the way
+        return T, target
+    if kind == 'whole-target-in-list':
+        return [T, 'lit'], [target, 'lit']
+    if kind == 'val-holding-a-T':
+        # Val(x) is x, unevaluated - also when x looks like a spec, and also when levels are created for the destination
+        return Val(_STORED_T), _STORED_T
     if kind == 'selfref-tleaves':
         # a value that contains itself AND leaves that are evaluated (each T leaf is an evaluation of its own, in the middle of
         # rebuilding the value)
